@@ -97,7 +97,7 @@ REQUIRED_CLASSES = ['ctor:NED', 'ctor:ENU', 'ctor:lat=0', 'ctor:lon=0', 'ctor:pl
 CTOR_DATES = [None, 2015.0, 2019.999, 2020.0, 2022.5, 2024.999, 2025.0, 'day:2021-07-01']
 CTOR_DATES_T = CTOR_DATES + [2022.449]
 CTOR_PLACES = [None, (0.0, 20.0, 0.0), (10.0, 0.0, 0.0), (0.0, 0.0, 0.0), (10.0, 20.0, 0.0), (90.0, 0.0, 0.0)]
-PLACES = [(0.0, 20.0, 0.0), (10.0, 0.0, 0.0), (90.0, 0.0, 0.0), (-90.0, 50.0, 0.0), (45.0, 180.0, 0.0), (45.0, -180.0, 0.0)]
+PLACES = [(0.0, 20.0, 0.0), (10.0, 0.0, 0.0), (10.0, 0.0, 400.0), (90.0, 0.0, 0.0), (-90.0, 50.0, 0.0), (45.0, 180.0, 0.0), (45.0, -180.0, 0.0)]   # (10, 0) at two heights
 PLACES_MENU = [(10.0, 20.0, 0.0), (70.0, -100.0, 0.0), (0.0, 0.0, 0.0), (-33.5, 151.25, 100.0), (-60.0, -70.0, 0.5)]
 DATES = [2019.999, 2022.5, 2025.0, 'day:2021-07-01', 'day:2019-12-31', None, 'omit']
 DATES_T = [2015.0, 2019.999, 2020.0, 2022.5, 2024.999, 2025.0, 'day:2021-07-01', 'day:2019-12-31', None, 'omit']
@@ -126,6 +126,9 @@ def initial_events(ctx):
     d0 = (CTOR_DATES_T if ctx.thorough else CTOR_DATES)[3]
     for p, f in zip(CTOR_PLACES[:3], ('enu', 'ned', 'Enu') if ctx.thorough else ('enu',)):
         out.append(['ctor', d0] + (list(p) if p else [None, None, None]) + [f])
+    # constructor exactly on the longitude limits and on both poles
+    for p in ((45.0, 180.0, 0.0), (45.0, -180.0, 0.0), (-90.0, 50.0, 0.0)):
+        out.append(['ctor', d0] + list(p) + ['NED'])
     return out
 
 
